@@ -29,6 +29,7 @@ META["text"] += " R6 also decides the tally's validity condition as a table (a c
 META["text"] += ' R6 also: the tally starts from zero at every call (the counter is created unconditionally before the first card is counted).'
 META["text"] += ' R5 also: the CVR list reaches the mean as given (set_all_margins_from_cvrs -> set_margin_from_cvrs -> Assorter.mean hand on the list itself, not a filtered copy), and the value functions involved keep no state between calls.'
 META["text"] += ' R5 also: merging repeated records builds a new vote dict (= C18.R2; placeholders share one default dict). R7 also: Contest.from_dict copies the configured entries verbatim, and the assertion factories read their options without writing into them.'
+META["text"] += ' (R8, N, frame condition on arguments) tallies and assorters read the cards: every function in scope changes the objects it is handed only in the ways confirmed for it (aud.ARG_EFFECTS); references are followed through aliases, elements, attributes, loop variables, .get/.items/.values and np.asarray, resolved by the bindings that reach the use.'
 
 
 def outer_tx(idx):
@@ -38,6 +39,10 @@ def outer_tx(idx):
 
 
 def run(chk):
+    from .. import aud as _aud8
+    _aud8.argument_effects(chk, 'C02.R8', 'shangrla/core/Audit.py', 'tallies and assorters read the cards', only=lambda q: q.startswith('Assertion.'))
+    _aud8.argument_effects(chk, 'C02.R8', 'shangrla/core/Audit.py', 'tallies and assorters read the cards', only=lambda q: q.startswith('Assorter.'))
+    _aud8.argument_effects(chk, 'C02.R8', 'shangrla/core/Audit.py', 'tallies and assorters read the cards', only=lambda q: q.startswith('Contest.'))
     idx = chk.idx
     chk.explain(
         "R1 plurality form and pairing; R2 value sets within the declared bounds (finite enumeration), three-site agreement "
